@@ -2,7 +2,7 @@
     Only statements, closed by [exact], and their assumptions.  The models are
     Model/PgWire.v, Model/MysqlWire.v, Model/Bytea.v (replayed against the real code on every run). *)
 From Acra Require Import Lib.Bytes Lib.Outcome Gen.WireConsts Model.MysqlWire Model.PgWire Model.Bytea
-  Proofs.MysqlWire Proofs.PgWire Proofs.Bytea.
+  Proofs.MysqlWire Proofs.PgWire Proofs.PgWireBind Proofs.Bytea.
 Local Open Scope N_scope.
 
 (** ===== PostgreSQL: relay identity ===== *)
@@ -197,3 +197,40 @@ Print Assumptions C12_wire_decode_octal_total.
 Theorem C12_wire_decode_escaped_total : forall d : bytes, decode_escaped d <> Panic.
 Proof. exact wire_decode_escaped_total. Qed.
 Print Assumptions C12_wire_decode_escaped_total.
+
+(** ===== PostgreSQL: Bind / Parse / Execute (checked models of decryptor/postgresql/utils.go) ===== *)
+
+(** marshal after parse is the identity on what was consumed: every Bind message NewBindPacket accepts is the
+    MarshalInto image of the parsed packet followed by the bytes it ignored (ARBITRARY input bytes) *)
+Theorem C12_pg_bind_roundtrip : forall (data : bytes) b, new_bind_packet data = Ok b ->
+  exists m rest, marshal_bind b = Ok m /\ data = m ++ rest.
+Proof. exact pg_bind_roundtrip. Qed.
+Print Assumptions C12_pg_bind_roundtrip.
+
+(** and what it returns is a well-formed value (names without a 0 byte, 16-bit codes, value lengths below the
+    NULL marker) *)
+Theorem C12_pg_bind_parse_wf : forall (data : bytes) b, new_bind_packet data = Ok b -> wf_bind b.
+Proof. exact pg_bind_parse_wf. Qed.
+Print Assumptions C12_pg_bind_parse_wf.
+
+(** parse after marshal is the identity on well-formed values, whatever follows the message *)
+Theorem C12_pg_bind_marshal_parse : forall b m (rest : bytes),
+  wf_bind b -> marshal_bind b = Ok m -> new_bind_packet (m ++ rest) = Ok b.
+Proof. exact pg_bind_marshal_parse. Qed.
+Print Assumptions C12_pg_bind_marshal_parse.
+
+(** premises satisfiable: NULL, empty and non-empty (with a 0 byte inside) parameters, trailing bytes *)
+Example C12_pg_bind_roundtrip_nonvacuous :
+  wf_bind example_bind /\ marshal_bind example_bind = Ok example_bind_bytes /\
+  new_bind_packet (example_bind_bytes ++ [x01; x02]) = Ok example_bind.
+Proof. exact pg_bind_wf_nonvacuous. Qed.
+
+Theorem C12_pg_parse_roundtrip : forall (data : bytes) pp, new_parse_packet data = Ok pp ->
+  exists rest : bytes, data = marshal_parse pp ++ rest.
+Proof. exact pg_parse_roundtrip. Qed.
+Print Assumptions C12_pg_parse_roundtrip.
+
+Theorem C12_pg_execute_roundtrip : forall (data : bytes) portal n, new_execute_packet data = Ok (portal, n) ->
+  ~ In x00 portal /\ n < 4294967296 /\ exists rest : bytes, data = portal ++ [x00] ++ be_enc 4 n ++ rest.
+Proof. exact pg_execute_roundtrip. Qed.
+Print Assumptions C12_pg_execute_roundtrip.
